@@ -36,10 +36,15 @@ def mkVals (flag name mig cAt uAt tag owner : String) : Vals Key Nm Tm :=
     context; m: nested Db.Update handed the transaction's own context -/
 def ctxSys (topSys : Bool) (ctx : String) : Bool := topSys || ctx = "s" || ctx = "n"
 
-/-- `topSys`: the context handed to Db.Update is a system context, so every operation's context is -/
-def parseOp (topSys : Bool) (s : String) : Option (Op Key Nm Tm) :=
+/-- `topSys`: the context handed to Db.Update is a system context, so every operation's context is.
+    `stored id` = the in-memory entity `FindById` would return right now (for the write-back op `b`:
+    `S.Update` of the entity just loaded, unchanged) -/
+def parseOp (topSys : Bool) (stored : Key → Option (Vals Key Nm Tm)) (s : String) : Option (Op Key Nm Tm) :=
   let sys := ctxSys topSys
   match s.splitOn ":" with
+  | ["b", ctx, id, ch] =>
+    let v := (stored (parseKey id)).getD (mkVals "f" "-" "f" "z" "z" "~" "-")
+    some (.update (sys ctx) (parseKey id) v (checkerSets ch "name") (checkerSets ch "tags") (checkerSets ch "owner"))
   | ["c", ctx, id, flag, name, mig, cAt, uAt, tag] =>
     some (.create (sys ctx) (parseKey id) (parseKey id).isEmpty (mkVals flag name mig cAt uAt tag "-"))
   | ["c", ctx, id, flag, name, mig, cAt, uAt, tag, owner] =>
@@ -122,12 +127,20 @@ def opResult (s : St Key Nm Tm) (op : Op Key Nm Tm) (o : Out Key Nm Tm) : String
     | .read id => readModel s id
     | _ => "ok"
 
-def runTxModel (s : St Key Nm Tm) (keepGoing : Bool) (ops : List (Op Key Nm Tm)) (pool opool : List Key) :
+/-- the loaded entity: what `LoadBaseValues` + the strategy's `FillEntity` put into the struct -/
+def storedVals (s : St Key Nm Tm) (id : Key) : Option (Vals Key Nm Tm) :=
+  (s.ents.get id).map fun e =>
+    { flag := e.isSystem, migrate := false, cAt := "z", uAt := "z", tags := e.tags, name := e.name, owner := e.owner }
+
+def runTxModel (s : St Key Nm Tm) (keepGoing : Bool) (topSys : Bool) (ops : List String) (pool opool : List Key) :
     St Key Nm Tm × String :=
-  let rec go (cur : St Key Nm Tm) (ops : List (Op Key Nm Tm)) (acc : List String) : St Key Nm Tm × List String × String :=
+  let rec go (cur : St Key Nm Tm) (ops : List String) (acc : List String) : St Key Nm Tm × List String × String :=
     match ops with
     | [] => (cur, acc.reverse, "")
-    | op :: rest =>
+    | ops0 :: rest =>
+      match parseOp topSys (storedVals cur) ops0 with
+      | none => go cur rest acc
+      | some op =>
       let o := StorageModel.C16.step cur op
       match o.err with
       | none => go o.st rest (opResult cur op o :: acc)
@@ -154,6 +167,7 @@ def parseReg (kind : String) : Reg :=
   | "HC" => { onS := false, onC := true }
   | "HB" => { onS := true, onC := true }
   | "HN" => { onS := false, onC := false }
+  | "HP" => { onS := true, onC := false, childStore := false }
   | _ => { onS := true, onC := false }
 
 def step (line : String) : String :=
@@ -162,7 +176,7 @@ def step (line : String) : String :=
     let (pool, opool) := parsePools p
     let r := txs.foldl (fun (acc : St Key Nm Tm × List String) t =>
       let (topSys, keep, ops) := parseTx t
-      let o := runTxModel acc.1 keep (ops.filterMap (parseOp topSys)) pool opool
+      let o := runTxModel acc.1 keep topSys ops pool opool
       (o.1, acc.2 ++ [o.2])) ((St.empty (parseReg kind) : St Key Nm Tm), [])
     " ".intercalate r.2
   | _ => "bad-case"
@@ -180,12 +194,19 @@ def viewSpec (s : SSt Key Nm Tm) (pool opool : List Key) : String :=
           "/_/_") ++ ";")
   ++ viewOwners s.owners opool
 
-def runTxSpec (s : SSt Key Nm Tm) (keepGoing : Bool) (ops : List (Op Key Nm Tm)) (pool opool : List Key) :
+def sstoredVals (s : SSt Key Nm Tm) (id : Key) : Option (Vals Key Nm Tm) :=
+  (s.ents.get id).map fun e =>
+    { flag := e.isSys, migrate := false, cAt := "z", uAt := "z", tags := e.tags, name := e.name, owner := e.owner }
+
+def runTxSpec (s : SSt Key Nm Tm) (keepGoing : Bool) (topSys : Bool) (ops : List String) (pool opool : List Key) :
     SSt Key Nm Tm × String :=
-  let rec go (cur : SSt Key Nm Tm) (ops : List (Op Key Nm Tm)) (acc : List String) : SSt Key Nm Tm × List String × String :=
+  let rec go (cur : SSt Key Nm Tm) (ops : List String) (acc : List String) : SSt Key Nm Tm × List String × String :=
     match ops with
     | [] => (cur, acc.reverse, "")
-    | op :: rest =>
+    | ops0 :: rest =>
+      match parseOp topSys (sstoredVals cur) ops0 with
+      | none => go cur rest acc
+      | some op =>
       match sstep cur op with
       | .ok s' =>
         let res := match op with
@@ -204,7 +225,7 @@ def specStep (line : String) : String :=
     let (pool, opool) := parsePools p
     let r := txs.foldl (fun (acc : SSt Key Nm Tm × List String) t =>
       let (topSys, keep, ops) := parseTx t
-      let o := runTxSpec acc.1 keep (ops.filterMap (parseOp topSys)) pool opool
+      let o := runTxSpec acc.1 keep topSys ops pool opool
       (o.1, acc.2 ++ [o.2])) ((SSt.empty (parseReg kind) : SSt Key Nm Tm), [])
     " ".intercalate r.2
   | _ => "bad-case"
